@@ -128,6 +128,9 @@ def run(ctx):
                 td_pts.add(base + d)
     for _ in range(20 if quick else 300):
         td_pts.add(r.randint(TD_MIN, TD_MAX)); td_pts.add(r.randint(-2**32 * 1000, 2**32 * 1000))
+    for _ in range(120 if quick else 3000):       # exact half-millisecond ties, both signs, many magnitudes
+        k = r.choice([r.randrange(0, 5000), r.randrange(0, 2**22), r.randrange(0, 2**31 - 1)])
+        td_pts.add(r.choice([1, -1]) * (k * 1000 + 500))
     vals += [("td", u) for u in sorted(td_pts)]
     dt_pts = set()
     for base in (0, 1000, 1500000, 1700000000123000, DT_MAX, DT_MAX - 999, -1, -1000, -62135596800000000):
